@@ -9,6 +9,7 @@ ASSUMPTIONS = ASSUME_SESSION
 RULE = ("[thorough tier adds the small-scope exhaustive enumeration of harness/gen/exhaustive.py: every loop program with a <= 2-action and a <= 1-action handler over a 10-action alphabet, 3 663 programs] loop and app programs with the stop request (raise ExitMainLoop, force_quit, close of the outermost loop, last screen closed, quit key) at every depth <= 5 and position, "
         "arbitrary pending content, further enqueues after force-quit; oracle: no handler invocation after the stop request, quit callback count and argument, run() returned "
         "only with a stop cause, NothingScheduledError exactly when the stack is empty and not configured otherwise; non-trivial = a stop request with handlers pending"
+        ' Programs in which a handler calls force_quit() while further handlers are registered for the class are run on the real GLibEventLoop (over the GLib stand-in) too: no handler after the force-quit there either (F12).'
         ' Later rounds: closing the outermost loop from handlers and nested processing calls; oracle: nothing runs while no loop level is open; a raising closed() of the last screen (K6).')
 
 
@@ -61,10 +62,57 @@ def gen_c09_exit_in_closed(rnd, sid):
                 stdin=["x"] * 6, quit_cb=rnd.choice([None, 5]), quit_screen=None, exc_handler=rnd.random() < 0.5, run_empty=False, deliver_at=[])
 
 
+def gen_fq_handlers(rnd, sid):
+    """force_quit() called from a handler while further handlers are registered for the same class (and for the classes of signals being dispatched at outer nesting
+    levels: the force-quitting handler may run inside a processing call / nested loop opened by a handler that has successors too). Run on both event loops
+    (glib_fq): the clause 'after a force-quit no handler is ever invoked again' is the GLib-based loop's as well."""
+    ncls = rnd.randint(1, 2); handlers = []
+    def enq(): return ["enq", "U%d" % rnd.randrange(ncls), rnd.choice([0, 0, 1, -1]), None, sid.next()]
+    def script(k):
+        if k == "fq": return [a for a in ([enq()] if rnd.random() < 0.3 else [])] + [["force_quit"]] + [rnd.choice([enq(), ["proc", None], ["new_loop", "U0", 0, sid.next()], ["close_loop"]]) for _ in range(rnd.choice([0, 0, 1, 2]))]
+        if k == "nest": return [enq(), rnd.choice([["proc", None], ["proc", "U%d" % rnd.randrange(ncls)], ["new_loop", "U%d" % rnd.randrange(ncls), 0, sid.next()]])]
+        return [enq() for _ in range(rnd.choice([0, 0, 1]))]
+    for c in range(ncls):
+        n = rnd.randint(2, 4); quitter = rnd.randrange(n - 1)          # never the last one: somebody is registered behind it
+        for i in range(n):
+            kinds = ["fq" if (i == quitter and rnd.random() < 0.8) else rnd.choice(["plain", "plain", "nest"]) for _ in range(rnd.randint(1, 4))]
+            if i == quitter and c == 0 and "fq" not in kinds: kinds[rnd.randrange(len(kinds))] = "fq"
+            handlers.append(dict(cls="U%d" % c, hid=len(handlers), data=rnd.choice([None, 7]), scripts=[script(k) for k in kinds]))
+    init = [enq() for _ in range(rnd.randint(1, 5))]
+    return dict(op="machine", mode="c09", width=80, screens=[], handlers=handlers, init=init, stdin=[], quit_cb=rnd.choice([None, 9]), quit_screen=None,
+                exc_handler=rnd.random() < 0.3, run_empty=True, deliver_at=[], glib_fq=True)
+
+
+_session_run_impl = run_impl
+
+
+def run_impl(case):
+    obs = _session_run_impl(case)
+    if case.get("glib_fq"):
+        # the same program on the real GLibEventLoop (over the GLib stand-in harness/impl/fakegi)
+        from harness.impl.app import run_real
+        try:
+            o, log, out = run_real(case, "glib")
+            obs["glib"] = {"outcome": norm_outcome(json.loads(json.dumps(o))), "log": json.loads(json.dumps(log)), "xlog": json.loads(json.dumps(run_real.xlog, default=str))}
+        except BaseException as e:
+            obs["glib"] = {"outcome": ["crash", repr(e)], "log": [], "xlog": []}
+    return obs
+
+
+def glib_force_quit_rule(case, g):
+    """after a force-quit no handler is ever invoked again - on the GLib-based loop"""
+    stop = None
+    for i, (ev, ctx) in enumerate(g["xlog"]):
+        if ev[0] == "api" and ev[1] == "force_quit" and stop is None and any(e[0][0] in ("H", "cb") for e in g["xlog"][:i]): stop = i
+        if stop is not None and i > stop and ev[0] == "H":
+            return "GLibEventLoop: handler %d was invoked (signal %r) after force_quit" % (ev[1], ev[2])
+    return None
+
+
 def generate(rnd, tier):
     n = 500 if tier == "quick" else 6000
     sid = SidCounter()
-    cases = [gen_c09_exit_in_closed(rnd, sid) for _ in range(n // 10)] + [gen_c09(rnd, sid) for _ in range(n)] + [gen_c09_modal_last(rnd, sid) for _ in range(n // 3)] + [gen_case(rnd, "loop", sid) for _ in range(n // 2)] + [gen_case(rnd, "app", sid) for _ in range(n // 3)] + \
+    cases = [gen_fq_handlers(rnd, sid) for _ in range(n // 5)] + [gen_c09_exit_in_closed(rnd, sid) for _ in range(n // 10)] + [gen_c09(rnd, sid) for _ in range(n)] + [gen_c09_modal_last(rnd, sid) for _ in range(n // 3)] + [gen_case(rnd, "loop", sid) for _ in range(n // 2)] + [gen_case(rnd, "app", sid) for _ in range(n // 3)] + \
             [gen_case(rnd, "tame", sid) for _ in range(n // 5)]
     if tier == "thorough":
         from harness.gen.exhaustive import loop_programs
@@ -79,6 +127,9 @@ def corpus():
     # witness of the fixed finding F7: the first of two handlers of one class calls force_quit()
     yield with_cc(dict(op="machine", mode="c09", width=80, screens=[], handlers=[dict(cls="U0", hid=0, data=None, scripts=[[["force_quit"]]]), dict(cls="U0", hid=1, data=None, scripts=[])],
                        init=[["enq", "U0", 0, None, 1]], stdin=[], run_empty=True, deliver_at=[]))
+    # witness of the fixed finding F12: the same program on the GLib-based loop
+    yield with_cc(dict(op="machine", mode="c09", width=80, screens=[], handlers=[dict(cls="U0", hid=0, data=None, scripts=[[["force_quit"]]]), dict(cls="U0", hid=1, data=None, scripts=[])],
+                       init=[["enq", "U0", 0, None, 1]], stdin=[], run_empty=True, deliver_at=[], glib_fq=True))
 
 
 def started_run(x, i):
@@ -87,6 +138,9 @@ def started_run(x, i):
 
 
 def monitor(case, obs):
+    if isinstance(obs.get("glib"), dict):
+        v = glib_force_quit_rule(case, obs["glib"])
+        if v: return v
     x = X(case, obs)
     stop = None; started = False
     quitcbs = [ev for i, ev, ctx in x.events() if ev[0] == "quitcb"]
